@@ -16,7 +16,7 @@ use std::sync::Mutex;
 use std::time::Instant;
 
 pub const POOL_LIMIT: usize = 65535;
-pub const NKINDS: u64 = 34;
+pub const NKINDS: u64 = 35;
 
 struct B {
     ops: Vec<OpRec>,
@@ -351,7 +351,12 @@ pub fn scenario(seed: u64, idx: u64) -> Trace {
                     b.push(Op::Observe);
                     b.push(Op::Delete { table: "Same".into(), cond: Some(Cond::Cmp("K".into(), CmpOp::Lt, Val::Int(20))) });
                 }
-                _ => {}
+                _ => {
+                    // every reference goes: both entries of the saturated string must become free
+                    b.restart(&mut rng);
+                    b.push(Op::Delete { table: "Same".into(), cond: None });
+                    b.push(Op::Observe);
+                }
             }
             b.restart(&mut rng);
             trace(seed, idx, created, b.ops, &mut rng)
@@ -530,6 +535,20 @@ pub fn scenario(seed: u64, idx: u64) -> Trace {
             b.restart(&mut rng);
             trace(seed, idx, Init::Foreign(Box::new(spec)), b.ops, &mut rng)
         }
+        // ---- the newest (trailing) entries are released and refilled, then the limit is passed
+        34 => {
+            let k = [3i32, 1, 6][(idx / NKINDS % 3) as usize];
+            let spec = pool_image(POOL_LIMIT - k as usize, false, &mut rng);
+            b.push(Op::Insert { table: "P".into(), rows: (0..k).map(|i| prow(1_000_000 + i, new_str(i as u32))).collect() });
+            b.push(Op::Delete { table: "P".into(), cond: Some(Cond::Cmp("K".into(), CmpOp::Ge, Val::Int(1_000_000))) });
+            b.push(Op::Insert { table: "P".into(), rows: (0..k).map(|i| prow(1_000_100 + i, new_str(100 + i as u32))).collect() });
+            b.push(Op::Observe);
+            // over the limit by no more than what was refilled
+            b.push(Op::Insert { table: "P".into(), rows: (0..k.min(2)).map(|i| prow(1_000_200 + i, new_str(200 + i as u32))).collect() });
+            b.push(Op::Insert { table: "P".into(), rows: vec![prow(1_000_300, new_str(300))] });
+            b.restart(&mut rng);
+            trace(seed, idx, Init::Foreign(Box::new(spec)), b.ops, &mut rng)
+        }
         // ---- a seeded ordinary history on top of a near-full pool
         _ => {
             let spec = pool_image(POOL_LIMIT - 1 - rng.usize_below(3), false, &mut rng);
@@ -615,7 +634,7 @@ pub fn check(tier: &str, seed: u64) -> i32 {
     let mut extra = BTreeMap::new();
     extra.insert(
         "scenario_kinds".to_string(),
-        serde_json::json!("0-2 columns 31/32/33; 3-5 rows 65535/65536/65537 in one batch; 6-7 rows incrementally (with restarts); 8 rows after deletions; 9-16 string pool at L-1/L with two-byte references (insert, batch, delete-then-insert, update, create_table, restart in between); 17 three-byte references; 18-19 table/column name lengths; 20 stream name lengths; 21 string widths 254/255/256; 22 16-bit refcount saturation; 23 seeded history on a near-full pool; 24 full pool plus a string with a saturated refcount; 25 one row needing two entries when one is free; 26 _Validation at its own 65,536-row limit; 27 full pool, freed slots, existing strings re-used before new ones; 28 read-only sessions on a full pool; 29 capacity freed by sessions that only lower reference counts; 30 capacity given back by nulling cells; 31 32 columns x 65,536 rows; 32 a shared string replaced at a full pool; 33 create_table into freed entries of a full pool"),
+        serde_json::json!("0-2 columns 31/32/33; 3-5 rows 65535/65536/65537 in one batch; 6-7 rows incrementally (with restarts); 8 rows after deletions; 9-16 string pool at L-1/L with two-byte references (insert, batch, delete-then-insert, update, create_table, restart in between); 17 three-byte references; 18-19 table/column name lengths; 20 stream name lengths; 21 string widths 254/255/256; 22 16-bit refcount saturation; 23 seeded history on a near-full pool; 24 full pool plus a string with a saturated refcount; 25 one row needing two entries when one is free; 26 _Validation at its own 65,536-row limit; 27 full pool, freed slots, existing strings re-used before new ones; 28 read-only sessions on a full pool; 29 capacity freed by sessions that only lower reference counts; 30 capacity given back by nulling cells; 31 32 columns x 65,536 rows; 32 a shared string replaced at a full pool; 33 create_table into freed entries of a full pool; 34 trailing entries released and refilled before the limit is passed"),
     );
     extra.insert("scenarios_per_kind".to_string(), serde_json::json!(kinds.into_inner().unwrap().into_iter().map(|(k, v)| (k.to_string(), v)).collect::<BTreeMap<_, _>>()));
     let rep = CheckReport {
